@@ -155,7 +155,11 @@ func GenGenesis(t *rapid.T, prof *Profile) GenesisSpec {
 	}
 
 	// identifiers: sequences near the padded width, or pre-made prefix-colliding classes
-	if prof.PrefixIDs && draw("g.prefixids", 3) > 0 {
+	prefixPct := prof.PrefixIDsPct
+	if prof.PrefixIDs {
+		prefixPct = 66
+	}
+	if draw("g.prefixids", 100) < prefixPct {
 		classes := []interface{}{2,
 			map[string]interface{}{"key": "1", "id": "C10", "admin": b64(accts[0]), "credit_type_abbrev": "C"},
 			map[string]interface{}{"key": "2", "id": "C100", "admin": b64(accts[1]), "credit_type_abbrev": "C", "metadata": "m"},
